@@ -4,6 +4,7 @@ package c06
 import (
 	"bytes"
 	"fmt"
+	"github.com/btcsuite/btcd/btcutil/hdkeychain"
 	"os"
 	"sort"
 	"testing"
@@ -25,6 +26,9 @@ import (
 )
 
 type run struct {
+	// cross: account number N exists as a derived account in scope A and as an
+	// imported extended-public-key (watch-only) account in scope B
+	cross   *crossScope
 	imports bool // some coins belong to imported keys
 	*walletsim.Scenario
 	published                    map[wire.OutPoint]chainhash.Hash // inputs of transactions the wallet published
@@ -159,6 +163,53 @@ func (r *run) history(t *rapid.T) {
 	s.C.Logf("coinbase at %d has %d confirmations", cbHeight, s.F.Chain.Tip().Height-cbHeight+1)
 }
 
+type crossScope struct {
+	a, b waddrmgr.KeyScope
+	num  uint32
+}
+
+// setupCrossScope creates account N in BIP84 and imports an extended public
+// key as account N of BIP86, and gives the derived account receiving addresses.
+func (r *run) setupCrossScope() {
+	s := r.Scenario
+	a, b := waddrmgr.KeyScopeBIP0084, waddrmgr.KeyScopeBIP0086
+	num, err := s.F.W.NextAccount(a, "crossa")
+	if err != nil {
+		s.F.Violation("NextAccount failed: %v", err)
+	}
+	seed2 := make([]byte, 32)
+	seed2[0], seed2[1] = 0x6c, 0x06
+	root, _ := hdkeychain.NewMaster(seed2, s.F.Params)
+	k, _ := root.Derive(hdkeychain.HardenedKeyStart + 86)
+	k, _ = k.Derive(hdkeychain.HardenedKeyStart + 1)
+	k, _ = k.Derive(hdkeychain.HardenedKeyStart + 7)
+	pub, _ := k.Neuter()
+	pub, err = pub.CloneWithVersion([]byte{0x04, 0x5f, 0x1c, 0xf6}) // vpub
+	if err != nil {
+		s.F.Inconclusive("CloneWithVersion: %v", err)
+	}
+	at := waddrmgr.TaprootPubKey
+	props, err := s.F.W.ImportAccount("crossb", pub, 0x0a0b0c0d, &at)
+	if err != nil {
+		s.F.Violation("ImportAccount failed: %v", err)
+	}
+	if props.KeyScope != b || props.AccountNumber != num {
+		// the numbers did not line up: no cross-scope requests in this case
+		s.C.Logf("imported account is %v/%d, derived one %v/%d", props.KeyScope, props.AccountNumber, a, num)
+		return
+	}
+	for i := 0; i < 2; i++ {
+		addr, err := s.F.W.NewAddress(num, a)
+		if err != nil {
+			s.F.Violation("NewAddress(%d, %v) failed: %v", num, a, err)
+		}
+		s.Book.Add(&walletsim.OwnAddr{Addr: addr, Scope: a, Account: num, Branch: 0})
+	}
+	r.cross = &crossScope{a: a, b: b, num: num}
+	s.C.Logf("account %d is a derived account in %v and an imported watch-only account in %v", num, a, b)
+	s.C.Class("same-account-number-derived-and-watch-only")
+}
+
 // request issues one transaction-creation request and checks the result.
 func (r *run) request(t *rapid.T, kind string, small bool) {
 	s := r.Scenario
@@ -173,6 +224,16 @@ func (r *run) request(t *rapid.T, kind string, small bool) {
 	q.Account = uint32(rapid.IntRange(0, 1).Draw(t, "account"))
 	if r.imports && rapid.IntRange(0, 3).Draw(t, "fromImportedAccount") == 0 {
 		q.Account = waddrmgr.ImportedAddrAccount
+	}
+	var customChange *waddrmgr.KeyScope
+	if kind == "create-cross-scope" {
+		if r.cross == nil {
+			return
+		}
+		a, b := r.cross.a, r.cross.b
+		q.Scope, q.Account, customChange = &a, r.cross.num, &b
+		kind = "create"
+		s.C.Class("change-scope-differs-from-coin-scope")
 	}
 	q.MinConf = int32(rapid.SampledFrom([]int{0, 0, 1, 1, 2, 3, 99, 100, 101}).Draw(t, "minconf"))
 	rate := btcutil.Amount(rapid.SampledFrom([]int{1000, 1000, 2500, 10_000, 50_000, 500_000}).Draw(t, "feeRate"))
@@ -268,6 +329,9 @@ func (r *run) request(t *rapid.T, kind string, small bool) {
 		if len(explicit) > 0 {
 			opts = append(opts, wallet.WithCustomSelectUtxos(explicit))
 		}
+		if customChange != nil {
+			opts = append(opts, wallet.WithCustomChangeScope(customChange))
+		}
 		var atx interface{}
 		res, e := s.F.W.CreateSimpleTx(q.Scope, q.Account, outputs, q.MinConf, rate, strategy, dry, opts...)
 		_ = atx
@@ -305,7 +369,7 @@ func (r *run) request(t *rapid.T, kind string, small bool) {
 					legacy = true
 				}
 			}
-			if !legacy && rapid.Bool().Draw(t, "finalize") {
+			if !legacy && !fromImported && rapid.Bool().Draw(t, "finalize") {
 				if ferr := s.F.W.FinalizePsbt(q.Scope, q.Account, pkt); ferr != nil {
 					s.F.Violation("FinalizePsbt of the packet FundPsbt just funded failed: %v", ferr)
 				}
@@ -543,10 +607,13 @@ func TestC06EligibleInputs(t *testing.T) {
 		r := &run{Scenario: s, imports: hasImports, published: map[wire.OutPoint]chainhash.Hash{}, expiries: map[wire.OutPoint]time.Time{},
 			clk: clock.NewTestClock(time.Unix(1_750_000_000, 0))}
 		s.F.W.TxStore.VerifSetClock(r.clk)
+		if rapid.IntRange(0, 3).Draw(t, "crossScopeAccounts") == 0 {
+			r.setupCrossScope()
+		}
 		r.history(t)
 		n := rapid.IntRange(1, maxReq).Draw(t, "nRequests")
 		for i := 0; i < n; i++ {
-			kind := rapid.SampledFrom([]string{"create", "create", "send", "send", "send-with-input", "create-with-utxos", "fund-psbt"}).Draw(t, "request")
+			kind := rapid.SampledFrom([]string{"create", "create", "send", "send", "send-with-input", "create-with-utxos", "fund-psbt", "create-cross-scope"}).Draw(t, "request")
 			r.request(t, kind, false)
 			// a published transaction may be handed to the backend again, by the
 			// user or by the wallet itself when the connection comes back; the
